@@ -7,10 +7,11 @@ writer (events → SAX calls → ElementTree infoset, `Bind/Write.lean`) and
 * `bind_generate_F1` (= `bind_generate_partial`) : the round trip, for every
   F1 universe, every F1 instance, both settings of `ignoreDefaultAttributes`,
   all 8 parser configurations, every `Env`; no converter warning is issued.
-* `bind_generate_anyInstance` / `bind_generate_anyNamespaces` : the full-strength
-  statements (without the value-level exclusions / without the namespace
-  agreement condition) are false of the model; each excluded region has a concrete
-  witness that is replayed on the real code (`known_findings.json`).
+* `bind_generate_anyNamespaces` : the same without the namespace agreement condition of `ctxF1`
+  (every combination of class and field namespaces; holds since repair `c01g-01`).
+* `bind_generate_anyInstance` : the full-strength statement without the value-level exclusions is
+  false of the model; each excluded region has a concrete witness that is replayed on the real code
+  (`known_findings.json`).
 -/
 import XsdataModel.Proofs.C01Main
 
@@ -192,15 +193,18 @@ theorem bind_generate_anyInstance_false : ¬ bind_generate_anyInstance := by
   rw [hp] at hp'
   simp [w1, s] at hp'
 
-/-! ### full strength, namespaces: false of the model (and of the code) -/
+/-! ### full strength, namespaces: holds since `convert_dataclass` hands `meta.namespace` down
+(repair `c01g-01`; before, the serializer handed down the namespace of the element name and the
+chain below was a counterexample: `C01-ns-chain`) -/
 
-/-- the round trip for every universe of the fragment's shape, without the requirement that the
-serializer and the parser look up the same metadata for grandchildren (`nsAgree`) -/
-def bind_generate_anyNamespaces : Prop :=
-  ∀ (e : BEnv) (Γ : Ctx) (cfg : SerCfg) (pcfg : ParserConfig) (c : ClassId) (v : Val),
-    ctxF1G false Γ = true → valF1 e Γ c v = true →
+/-- **C01, fragment F1 for every combination of class and field namespaces**: no requirement that the
+classes of grandchildren have the same metadata under two parent namespaces (`ctxF1G false` is
+`ctxF1` without `nsAgree`). -/
+theorem bind_generate_anyNamespaces (e : BEnv) (Γ : Ctx) (cfg : SerCfg) (pcfg : ParserConfig) (c : ClassId)
+    (v : Val) (hΓ : ctxF1G false Γ = true) (hv : valF1 e Γ c v = true) :
     ∃ evs t, generate e Γ cfg v = .ok evs ∧ eventsTree (isDatatype Γ) evs = .ok t ∧
-      parseRoot e Γ pcfg c t = .ok (v, 0)
+      parseRoot e Γ pcfg c t = .ok (v, 0) :=
+  Proofs.C01.roundtrip_F1G e Γ cfg pcfg c v hΓ hv
 
 def w4Z (q : String) : XmlVar := mkVar 1 "z" q .element [.prim .str]
 def w4LeafInfo : ClassInfo :=
@@ -225,25 +229,18 @@ its own) → `z: str` -/
 def Γw4 : Ctx := { classes := [w4LeafInfo, w4MidInfo, w4RootInfo], xsiIndex := [], datatypes := [] }
 def w4 : Val := .obj (s "Root") [(s "x", .obj (s "Mid") [(s "y", .obj (s "Leaf") [(s "z", .prim (.str (s "t")))])])]
 
-/-- the serializer builds `Leaf` under the namespace of the element `x` (`urn:a`, the namespace of
-`Root`), the parser under the namespace of the class `Mid` (`urn:b`): `z` is written as `{urn:a}z`
-and looked up as `{urn:b}z` -/
-theorem ns_chain_witness :
+/-- the former counterexample: the serializer and the parser both build `Leaf` under the namespace
+of the class `Mid` (`urn:b`); `z` is written as `{urn:b}z` and found -/
+theorem ns_chain_repaired :
     ctxF1G false Γw4 = true ∧ ctxF1 Γw4 = false ∧ valF1 e0 Γw4 (s "Root") w4 = true ∧
     generate e0 Γw4 {} w4 = .ok (evsOf Γw4 w4) ∧
     eventsTree (isDatatype Γw4) (evsOf Γw4 w4) = .ok (treeOf Γw4 w4) ∧
     treeOf Γw4 w4 = .node (s "{urn:a}Root") [] [] none [.node (s "{urn:a}x") [] [] none
-      [.node (s "{urn:b}y") [] [] none [.node (s "{urn:a}z") [] [] (some (s "t")) [] none] none] none] none ∧
-    parseRoot e0 Γw4 {} (s "Root") (treeOf Γw4 w4) = .error (.parser "Unknown property") :=
-  ⟨by decide, by decide, by decide, rfl, rfl, rfl, rfl⟩
+      [.node (s "{urn:b}y") [] [] none [.node (s "{urn:b}z") [] [] (some (s "t")) [] none] none] none] none :=
+  ⟨by decide, by decide, by decide, rfl, rfl, rfl⟩
 
-theorem bind_generate_anyNamespaces_false : ¬ bind_generate_anyNamespaces := by
-  intro h
-  obtain ⟨h1, _, h2, hg, ht, _, hp⟩ := ns_chain_witness
-  obtain ⟨evs, t, hg', ht', hp'⟩ := h e0 Γw4 {} {} (s "Root") w4 h1 h2
-  rw [hg] at hg'; cases hg'
-  rw [ht] at ht'; cases ht'
-  rw [hp] at hp'
-  cases hp'
+example : ∃ evs t, generate e0 Γw4 {} w4 = .ok evs ∧ eventsTree (isDatatype Γw4) evs = .ok t ∧
+    parseRoot e0 Γw4 {} (s "Root") t = .ok (w4, 0) :=
+  bind_generate_anyNamespaces e0 Γw4 {} {} (s "Root") w4 (by decide) (by decide)
 
 end Props.C01
